@@ -16,6 +16,8 @@ EXTRA = {
     # round 3 (change1 -> <id>-5, change2 -> <id>-6; C05: -6, -7)
     "C01-5": ["C02", "C04"], "C01-6": ["C07"], "C02-5": ["C09"], "C04-5": ["C02", "C01"], "C06-5": ["C01", "C02"], "C06-6": ["C02"], "C08-6": ["C01"],
     "C11-5": ["C08"], "C11-6": ["C12"], "C12-6": ["C11"], "C13-5": ["C14"], "C15-5": ["C16"], "C16-6": ["C15"], "C17-6": ["C07"], "C18-5": ["C02"],
+    # round 4 (change1 -> <id>-7, change2 -> <id>-8; C05: -8, -9)
+    "C13-8": ["C18", "C04"], "C01-8": ["C14"], "C07-8": ["C12"], "C14-8": ["C13"], "C03-8": ["C02", "C09"], "C02-8": ["C09"],
 }
 
 
